@@ -147,7 +147,7 @@ def run(tier):
         spec, vio = make_spec(cls, r, init, values, 'loop', 0)
         a = lp.arm_args(cls.replace('Stateful', ''))
         arm_cls = a['arm_cls'] if 'Thread' in cls else cls
-        tr, rres = lpi.record(spec_for_lifecycle(spec), os.path.join(wd, 'rec_' + cls), files=a['files'], arm_func=a['arm_func'], arm_cls=arm_cls, arm_caller=a.get('arm_caller'))
+        tr, rres = lpi.record(spec, os.path.join(wd, 'rec_' + cls), files=a['files'], arm_func=a['arm_func'], arm_cls=arm_cls, arm_caller=a.get('arm_caller'), case_target='checks.c16:case')
         loop_events = [e for e in tr if e.get('file') == 'vstate.py' and e.get('func') == 'run' and e.get('kind') in lpi.EBP_KINDS]
         # only points after the last assignment: the loop part (after the 'entered' marker call)
         entered_idx = max([e['i'] for e in tr if e.get('file') == 'vtargets.py' and e.get('func') == 'mark'] or [0])
@@ -161,9 +161,9 @@ def run(tier):
 
     def tone(job):
         cls, spec, init, vio, k, at, a, arm_cls = job
-        sp = spec_for_lifecycle(spec)
+        sp = dict(spec)
         sp['action'] = dict(kind='terminate', timeout=8, force=False)
-        res = lpi.act(sp, os.path.join(wd, 't_%s_%d' % (cls, k)), k, at=at, files=a['files'], arm_func=a['arm_func'], arm_cls=arm_cls, arm_caller=a.get('arm_caller'), await_s=2)
+        res = lpi.act(sp, os.path.join(wd, 't_%s_%d' % (cls, k)), k, at=at, files=a['files'], arm_func=a['arm_func'], arm_cls=arm_cls, arm_caller=a.get('arm_caller'), await_s=2, case_target='checks.c16:case')
         cleanup(res['dir'])
         return job, res
 
